@@ -22,3 +22,294 @@ Proof.
   exists ns_witness. vm_compute. repeat split; try reflexivity.
   repeat constructor; simpl; intuition discriminate.
 Qed.
+
+(* ---------------------------------------------------------------- the repaired code *)
+Definition ns_wf (c : ns_cfg) : Prop := ns_fixed c = true /\ 0 <= ns_nstart c <= 255.
+
+Definition ns_quiet (c : ns_cfg) (act : Z) (dq : list ns_node) : Prop :=
+  match dq with
+  | [] => True
+  | q :: _ => ns_ncon q = true /\ act = ns_nstart c
+  end.
+
+Definition ns_cnt0 (q : ns_node) : bool := ns_cnt q =? 0.
+
+Record ns_inv (c : ns_cfg) (s : ns_st) : Prop := {
+  iv_act : ns_act s = Z.of_nat (length (ns_sq s));
+  iv_le : ns_act s <= ns_nstart c;
+  iv_con : forallb ns_ncon (ns_sq s) = true;
+  iv_est : ns_sq s <> [] -> ns_est s = true;
+  iv_cnt : forallb ns_cnt0 (ns_dq s) = true;
+  iv_qui : ns_est s = true -> ns_quiet c (ns_act s) (ns_dq s);
+  iv_closed : ns_open s = false -> ns_dq s = [] /\ ns_sq s = [] }.
+
+Lemma ns_inc_small a : 0 <= a < 255 -> ns_inc a = a + 1.
+Proof. intros. unfold ns_inc. apply Z.mod_small. lia. Qed.
+
+(* what one run of the drain loop does *)
+Lemma ns_drain_spec c : ns_wf c -> forall dq act a r snt o,
+  0 <= act <= ns_nstart c -> forallb ns_cnt0 dq = true ->
+  ns_drain c act dq = (a, r, snt, o) ->
+  a = act + Z.of_nat (length snt) /\ a <= ns_nstart c /\
+  forallb ns_ncon snt = true /\ forallb ns_cnt0 r = true /\ ns_quiet c a r /\
+  map ns_nmsg dq = ns_txs o ++ map ns_nmsg r /\
+  o = map NsTx (ns_txs o) /\
+  map ns_nmsg snt = filter ns_con (ns_txs o).
+Proof.
+  intros [Hfx Hn]. induction dq as [|q rest IH]; intros act a r snt o Ha Hc H.
+  - cbn in H. inversion H; subst. cbn. repeat split; try reflexivity; lia.
+  - cbn [ns_drain] in H. cbn [forallb] in Hc. apply andb_true_iff in Hc. destruct Hc as [Hq Hr].
+    destruct (ns_ncon q) eqn:Eq.
+    + destruct (ns_nstart c <=? act) eqn:El.
+      * inversion H; subst. cbn [length ns_txs flat_map app map filter forallb ns_quiet].
+        rewrite Hq, Hr, Eq.
+        repeat split; try reflexivity; lia.
+      * destruct (ns_drain c (ns_inc act) rest) as [[[a' r'] s'] o'] eqn:Ed.
+        unfold ns_cnt0 in Hq. rewrite Hq in H. inversion H; subst. clear H.
+        assert (Hi : ns_inc act = act + 1) by (apply ns_inc_small; lia).
+        rewrite Hi in Ed.
+        destruct (IH (act + 1) a r s' o' ltac:(lia) Hr Ed) as (A1 & A2 & A3 & A4 & A5 & A6 & A7 & A8).
+        cbn [length ns_txs flat_map app map filter forallb].
+        fold (ns_txs o'). rewrite Eq. unfold ns_ncon in Eq. rewrite Eq. cbn [filter map andb].
+        rewrite A6, <- A7, <- A8.
+        repeat split; try reflexivity; try assumption; lia.
+    + destruct (ns_drain c act rest) as [[[a' r'] s'] o'] eqn:Ed.
+      inversion H; subst. clear H.
+      destruct (IH act a r snt o' Ha Hr Ed) as (A1 & A2 & A3 & A4 & A5 & A6 & A7 & A8).
+      cbn [length ns_txs flat_map app map filter].
+      fold (ns_txs o'). unfold ns_ncon in Eq. rewrite Eq.
+      rewrite A6, <- A7, <- A8.
+      repeat split; try reflexivity; try assumption.
+Qed.
+
+(* ---- list helpers ---- *)
+Lemma ns_remove_some mid l n l' :
+  ns_remove mid l = Some (n, l') ->
+  length l = S (length l') /\ ns_nmid n = mid /\ In n l /\
+  (forall P, forallb P l = true -> P n = true /\ forallb P l' = true) /\
+  map ns_nmsg l' = ns_rm_mid mid (map ns_nmsg l) /\
+  (forall x, In x l' -> In x l).
+Proof.
+  revert n l'. induction l as [|h t IH]; intros n l' H; [discriminate|].
+  cbn [ns_remove] in H. destruct (ns_nmid h =? mid) eqn:E.
+  - inversion H; subst. cbn [length map ns_rm_mid]. pose proof E as E'. unfold ns_nmid in E'.
+    rewrite E'.
+    split; [reflexivity|]. split; [lia|]. split; [left; reflexivity|].
+    split; [|split; [reflexivity|intros x Hx; right; exact Hx]].
+    intros P HP. cbn [forallb] in HP. apply andb_true_iff in HP. exact HP.
+  - destruct (ns_remove mid t) as [[x r']|] eqn:Er; [|discriminate].
+    inversion H; subst. destruct (IH n r' eq_refl) as (A1 & A2 & A3 & A4 & A5 & A6).
+    cbn [length map ns_rm_mid]. pose proof E as E'. unfold ns_nmid in E'. rewrite E'.
+    split; [lia|]. split; [exact A2|]. split; [right; exact A3|].
+    split; [|split; [rewrite A5; reflexivity|]].
+    + intros P HP. cbn [forallb] in HP. apply andb_true_iff in HP. destruct HP as [H1 H2].
+      destruct (A4 P H2) as [B1 B2]. split; [exact B1|]. cbn [forallb]. rewrite H1, B2. reflexivity.
+    + intros y [Hy|Hy]; [left; exact Hy|right; apply A6; exact Hy].
+Qed.
+
+Lemma ns_remove_none mid l :
+  ns_remove mid l = None ->
+  ns_rm_mid mid (map ns_nmsg l) = map ns_nmsg l /\ (forall n, In n l -> ns_nmid n <> mid).
+Proof.
+  induction l as [|h t IH]; intros H; [split; [reflexivity|intros n []]|].
+  cbn [ns_remove] in H. destruct (ns_nmid h =? mid) eqn:E; [discriminate|].
+  destruct (ns_remove mid t) as [[x r']|] eqn:Er; [discriminate|].
+  destruct (IH eq_refl) as [A1 A2]. cbn [map ns_rm_mid]. unfold ns_nmid in E. rewrite E, A1.
+  split; [reflexivity|]. intros n [Hn|Hn]; [subst; unfold ns_nmid; lia|apply A2; exact Hn].
+Qed.
+
+Lemma ns_bump_props mid l :
+  length (ns_bump mid l) = length l /\ map ns_nmsg (ns_bump mid l) = map ns_nmsg l /\
+  forallb ns_ncon (ns_bump mid l) = forallb ns_ncon l.
+Proof.
+  induction l as [|h t (A1 & A2 & A3)]; [repeat split|].
+  cbn [ns_bump]. destruct (ns_nmid h =? mid); cbn [length map forallb ns_nmsg].
+  - repeat split.
+  - rewrite A1, A2. unfold ns_ncon in *. cbn [ns_nmsg]. rewrite A3. repeat split.
+Qed.
+
+Lemma ns_filter_split {A} (p : A -> bool) l :
+  (length (filter p l) + length (filter (fun x => negb (p x)) l))%nat = length l.
+Proof.
+  induction l as [|h t IH]; [reflexivity|]. cbn [filter]. destruct (p h); cbn [negb length]; lia.
+Qed.
+
+Lemma ns_forallb_filter {A} (p q : A -> bool) l :
+  forallb p l = true -> forallb p (filter q l) = true.
+Proof.
+  induction l as [|h t IH]; [reflexivity|]. cbn [forallb filter]. intros H.
+  apply andb_true_iff in H. destruct H as [H1 H2]. destruct (q h); cbn [forallb];
+  [rewrite H1|]; auto.
+Qed.
+
+Lemma ns_filter_all {A} (p : A -> bool) l : forallb p l = true -> filter p l = l.
+Proof.
+  induction l as [|h t IH]; [reflexivity|]. cbn [forallb filter]. intros H.
+  apply andb_true_iff in H. destruct H as [H1 H2]. rewrite H1, IH; auto.
+Qed.
+
+Ltac ns_simp := cbn [ns_set_act ns_set_sq ns_open ns_est ns_act ns_dq ns_sq ns_lg fst snd] in *.
+
+(* ---- the invariant is kept by every event ---- *)
+Definition ns_pre (c : ns_cfg) (s : ns_st) (k : nat) : Prop :=
+  ns_open s = true /\ ns_act s = Z.of_nat (length (ns_sq s)) + Z.of_nat k /\
+  ns_act s <= ns_nstart c /\ forallb ns_ncon (ns_sq s) = true /\
+  forallb ns_cnt0 (ns_dq s) = true.
+
+Definition ns_post (c : ns_cfg) (s : ns_st) (k : nat) : Prop :=
+  ns_pre c s k /\ ns_est s = true /\ ns_quiet c (ns_act s) (ns_dq s).
+
+Lemma ns_connected_pre c s k : ns_wf c -> ns_pre c s k ->
+  ns_post c (fst (ns_connected c s)) k.
+Proof.
+  intros Hwf (Ho & Ha & Hl & Hc & Hd). unfold ns_connected.
+  destruct (ns_drain c (ns_act s) (ns_dq s)) as [[[a r] snt] o] eqn:E. cbn [fst].
+  assert (Hr : 0 <= ns_act s <= ns_nstart c) by lia.
+  destruct (ns_drain_spec c Hwf _ _ _ _ _ _ Hr Hd E) as (A1 & A2 & A3 & A4 & A5 & _).
+  unfold ns_post, ns_pre. cbn [ns_open ns_act ns_sq ns_dq ns_est].
+  rewrite app_length, forallb_app, Hc, A3. repeat split; try assumption; try reflexivity; lia.
+Qed.
+
+Lemma ns_dec_drain_pre c s k : ns_wf c -> ns_pre c s (S k) -> ns_est s = true ->
+  ns_post c (fst (ns_dec_drain c s)) k.
+Proof.
+  intros Hwf (Ho & Ha & Hl & Hc & Hd) He. unfold ns_dec_drain.
+  destruct (ns_act s =? 0) eqn:E0; [lia|].
+  cbn [ns_set_act ns_est]. rewrite He.
+  apply ns_connected_pre; [exact Hwf|].
+  unfold ns_pre. ns_simp. repeat split; try assumption; lia.
+Qed.
+
+Lemma ns_dec_n_pre c k : ns_wf c -> forall s, ns_post c s k -> ns_post c (fst (ns_dec_n c k s)) 0.
+Proof.
+  intros Hwf. induction k as [|k IH]; intros s H; [exact H|].
+  cbn [ns_dec_n]. destruct H as (Hp & He & _).
+  pose proof (ns_dec_drain_pre c s k Hwf Hp He) as H1.
+  destruct (ns_dec_drain c s) as [s1 o1]. cbn [fst] in H1.
+  specialize (IH s1 H1). destruct (ns_dec_n c k s1) as [s2 o2]. exact IH.
+Qed.
+
+Lemma ns_post_inv c s : ns_wf c -> ns_post c s 0 -> ns_inv c s.
+Proof.
+  intros Hwf ((Ho & Ha & Hl & Hc & Hd) & He & Hq).
+  constructor; try assumption; try lia; intros; try assumption. congruence.
+Qed.
+
+Lemma ns_inv_pre c s : ns_inv c s -> ns_open s = true -> ns_pre c s 0.
+Proof.
+  intros [] Ho. unfold ns_pre. repeat split; try assumption; lia.
+Qed.
+
+Lemma ns_inv_lg c o e a d q l l' :
+  ns_inv c (ns_mkst o e a d q l) -> ns_inv c (ns_mkst o e a d q l').
+Proof. intros []. constructor; assumption. Qed.
+
+Lemma ns_inv_act_pos c s : ns_inv c s -> 0 <= ns_act s.
+Proof. intros []. lia. Qed.
+
+Lemma ns_remove_dec_inv c s mid n q : ns_wf c -> ns_inv c s -> ns_open s = true ->
+  ns_remove mid (ns_sq s) = Some (n, q) ->
+  ns_inv c (fst (ns_dec_drain c (ns_set_sq s q))).
+Proof.
+  intros Hwf Hi Ho Hr. destruct (ns_remove_some _ _ _ _ Hr) as (L & _ & Hin & HP & _).
+  apply ns_post_inv; [exact Hwf|]. apply ns_dec_drain_pre; [exact Hwf| |].
+  - destruct Hi. unfold ns_pre. cbn [ns_set_sq ns_open ns_act ns_sq ns_dq].
+    repeat split; try assumption; try lia. apply (HP ns_ncon iv_con0).
+  - cbn [ns_set_sq ns_est]. apply (iv_est _ _ Hi). intro E. rewrite E in Hin. exact Hin.
+Qed.
+
+Theorem ns_step_inv c s e : ns_wf c -> ns_inv c s -> ns_inv c (fst (ns_step c s e)).
+Proof.
+  intros Hwf Hi. pose proof Hwf as [Hfx Hn]. unfold ns_step.
+  destruct (ns_open s) eqn:Ho; cbn [negb].
+  2: { destruct e; exact Hi. }
+  destruct e as [m|mid|mid|mid|tok| |r].
+  - (* submit *)
+    unfold ns_submit.
+    destruct (negb (ns_est s) || ns_con m && (ns_nstart c <=? ns_act s)) eqn:Eh.
+    + destruct (existsb _ (ns_dq s)); cbn [fst]; [exact Hi|].
+      destruct Hi. constructor; cbn [ns_open ns_est ns_act ns_dq ns_sq]; try assumption.
+      * rewrite forallb_app, iv_cnt0. reflexivity.
+      * intros He. specialize (iv_qui0 He). rewrite He in Eh. cbn [negb orb] in Eh.
+        destruct (ns_dq s) as [|q0 t]; cbn [app ns_quiet] in *; [|exact iv_qui0].
+        unfold ns_ncon. cbn [ns_nmsg]. split; [|lia]. destruct (ns_con m); [reflexivity|discriminate].
+      * congruence.
+    + apply orb_false_iff in Eh. destruct Eh as [He Eh]. apply negb_false_iff in He.
+      destruct (ns_con m) eqn:Ec; cbn [fst]; [|exact Hi].
+      cbn [andb] in Eh. destruct Hi.
+      assert (Hinc : ns_inc (ns_act s) = ns_act s + 1) by (apply ns_inc_small; lia).
+      constructor; cbn [ns_open ns_est ns_act ns_dq ns_sq]; try assumption; try congruence.
+      * rewrite Hinc, app_length. cbn [length]. lia.
+      * lia.
+      * rewrite forallb_app, iv_con0. unfold ns_ncon. cbn [forallb ns_nmsg]. rewrite Ec. reflexivity.
+      * intros _. specialize (iv_qui0 He). destruct (ns_dq s); cbn [ns_quiet] in *; [exact I|lia].
+  - (* ack *)
+    unfold ns_ack. destruct (ns_remove mid (ns_sq s)) as [[n q]|] eqn:Er; [|exact Hi].
+    pose proof (ns_remove_dec_inv c s mid n q Hwf Hi Ho Er) as H.
+    destruct (ns_dec_drain c (ns_set_sq s q)) as [s1 o]. cbn [fst] in *.
+    destruct s1. eapply ns_inv_lg. exact H.
+  - (* rst *)
+    unfold ns_rst. rewrite Hfx.
+    destruct (ns_remove mid (ns_sq s)) as [[n q]|] eqn:Er; [|exact Hi].
+    destruct (ns_remove_some _ _ _ _ Er) as (_ & _ & _ & HP & _).
+    destruct (HP ns_ncon (iv_con _ _ Hi)) as [Hn' _]. rewrite Hn'.
+    pose proof (ns_remove_dec_inv c s mid n q Hwf Hi Ho Er) as H.
+    destruct (ns_dec_drain c (ns_set_sq s q)) as [s1 o]. exact H.
+  - (* tick *)
+    unfold ns_tick. destruct (ns_remove mid (ns_sq s)) as [[n q]|] eqn:Er; [|exact Hi].
+    destruct (ns_remove_some _ _ _ _ Er) as (L & _ & Hin & HP & _).
+    destruct (HP ns_ncon (iv_con _ _ Hi)) as [Hn' _].
+    assert (He : ns_est s = true).
+    { apply (iv_est _ _ Hi). intro E. rewrite E in Hin. exact Hin. }
+    destruct (ns_cnt n <? ns_maxrt c).
+    + rewrite He, Hn'. cbn [negb orb andb].
+      destruct Hi.
+      assert (Ha : ns_act s >= 1) by lia.
+      destruct (ns_act s =? 0) eqn:E0; [lia|].
+      destruct (ns_nstart c <=? ns_act s - 1) eqn:El; [lia|]. cbn [fst].
+      destruct (ns_bump_props mid (ns_sq s)) as (B1 & B2 & B3).
+      assert (Hinc : ns_inc (ns_act s - 1) = ns_act s) by (rewrite ns_inc_small; lia).
+      rewrite Hinc. constructor; ns_simp; rewrite ?B1, ?B3; try assumption; try congruence;
+        try (intros; reflexivity). intros _. apply iv_qui0. exact He.
+    + pose proof (ns_remove_dec_inv c s mid n q Hwf Hi Ho Er) as H.
+      destruct (ns_dec_drain c (ns_set_sq s q)) as [s1 o]. exact H.
+  - (* separate response: cancel by token *)
+    unfold ns_sep.
+    set (p := fun n : ns_node => ns_tok (ns_nmsg n) =? tok).
+    pose proof (ns_filter_split p (ns_sq s)) as Hlen.
+    pose proof (ns_forallb_filter ns_ncon p (ns_sq s) (iv_con _ _ Hi)) as Hch.
+    rewrite (ns_filter_all ns_ncon _ Hch).
+    destruct (filter p (ns_sq s)) as [|h0 t0] eqn:Eh; unfold p in *; cbn beta in *.
+    + cbn [length ns_dec_n fst]. cbn [length] in Hlen.
+      destruct Hi. constructor; cbn [ns_set_sq ns_open ns_est ns_act ns_dq ns_sq]; try assumption.
+      * lia.
+      * apply ns_forallb_filter. exact iv_con0.
+      * intros Hne. apply iv_est0. intro E. rewrite E in Hne. apply Hne. reflexivity.
+      * intros E. destruct (iv_closed0 E) as [A B]. rewrite B. split; [exact A|reflexivity].
+    + apply ns_post_inv; [exact Hwf|]. apply ns_dec_n_pre; [exact Hwf|].
+      assert (He : ns_est s = true).
+      { apply (iv_est _ _ Hi). intro E. rewrite E in Eh. discriminate. }
+      destruct Hi. unfold ns_post, ns_pre. cbn [ns_set_sq ns_open ns_est ns_act ns_dq ns_sq].
+      repeat split; try assumption; try lia.
+      * apply ns_forallb_filter. exact iv_con0.
+      * apply iv_qui0. exact He.
+  - (* up *)
+    apply ns_post_inv; [exact Hwf|]. apply ns_connected_pre; [exact Hwf|].
+    apply ns_inv_pre; assumption.
+  - (* fail *)
+    unfold ns_fail. destruct (r =? ns_ICMP); cbn [fst]; [exact Hi|].
+    constructor; cbn [ns_open ns_est ns_act ns_dq ns_sq length forallb ns_quiet]; try reflexivity;
+      try lia; try tauto; try (intros H; exfalso; apply H; reflexivity).
+Qed.
+
+Lemma ns_init_inv c e : ns_wf c -> ns_inv c (ns_init e).
+Proof.
+  intros [_ Hn]. constructor; cbn; try reflexivity; try lia; try tauto; try discriminate;
+    try (intros H; exfalso; apply H; reflexivity).
+Qed.
+
+Theorem ns_run_inv c : ns_wf c -> forall evs s, ns_inv c s -> ns_inv c (ns_run c s evs).
+Proof.
+  intros Hwf. induction evs as [|e r IH]; intros s Hi; [exact Hi|].
+  cbn [ns_run]. apply IH. apply ns_step_inv; assumption.
+Qed.
